@@ -336,3 +336,59 @@ def ensure_built(prop, extract=True, release=False):
     okd, outd = build_driver()
     if not okd:
         raise RuntimeError("driver build failed:\n" + outd[-3000:])
+
+
+# ---------------------------------------------------------------- translator + parse differential
+
+def regen():
+    """Tie A: re-run the translator over /repo's working tree (gen/*.v rewritten only when changed)."""
+    ok, out = cargo_build(RS2COQ)
+    if not ok:
+        raise RuntimeError("rs2coq build failed:\n" + out[-3000:])
+    rc, out, _ = run([os.path.join(RS2COQ, "target", "debug", "rs2coq"), REPO, os.path.join(COQ, "gen")], timeout=600)
+    if rc != 0:
+        return False, "rs2coq failed on the working tree: " + out[-3000:]
+    rep = open(os.path.join(COQ, "gen", "grammar_report.txt")).read()
+    problems = [l for l in rep.splitlines() if l.startswith("PROBLEM")]
+    return True, "\n".join(problems)
+
+
+def parse_stream(stream, seed, n, stdin=None, release=False):
+    """Run one harness parse stream; returns rows (hex, impl, extra)."""
+    rc, out = run_harness(["parse", stream, str(seed), str(n)], inp=stdin, release=release)
+    if rc != 0:
+        raise RuntimeError("harness parse %s failed: %s" % (stream, out[-2000:]))
+    rows = []
+    for l in out.split("\n"):
+        if not l:
+            continue
+        p = l.split("\t")
+        rows.append((p[0], p[1], p[2] if len(p) > 2 else ""))
+    return rows
+
+
+def model_parse(hexes):
+    rc, mout = run_driver(["parse"], "\n".join(hexes) + "\n")
+    model = mout.split("\n")
+    if model and model[-1] == "":
+        model.pop()
+    if rc != 0 or len(model) != len(hexes):
+        raise RuntimeError("driver parse failed (rc=%s, %d results for %d cases): %s" % (rc, len(model), len(hexes), mout[-2000:]))
+    return model
+
+
+def corpus_lines(prop):
+    d = os.path.join(ROOT, "corpus", prop)
+    lines = []
+    if os.path.isdir(d):
+        for f in sorted(os.listdir(d)):
+            for l in open(os.path.join(d, f)):
+                l = l.strip()
+                if l and not l.startswith("#"):
+                    lines.append(l)
+    return lines
+
+
+def show_input(h, limit=200):
+    b = bytes.fromhex(h)
+    return repr(b[:limit]) + ("..." if len(b) > limit else "")
